@@ -94,7 +94,12 @@ func Stale(c *core.Ctx, rule string, pkgs []*packages.Package, floorLits, floorR
 			useIn := func(nd ast.Node) bool {
 				return nodeContains(nd, true, func(x ast.Node) bool {
 					id, ok := x.(*ast.Ident)
-					return ok && info.Uses[id] == r.arg && !(id.Pos() >= r.call.Pos() && id.End() <= r.call.End())
+					if !ok || info.Uses[id] != r.arg {
+						return false
+					}
+					// the argument of the run itself is the consumption; every other occurrence — including inside a
+					// literal that is part of the StateT being run (it executes during the run) — is a later use
+					return !(id.Pos() >= r.call.Args[0].Pos() && id.End() <= r.call.Args[0].End())
 				})
 			}
 			// same node as the run: uses outside the call expression, e.g. `return st(s), s`... evaluated left to right; treat as stale too
